@@ -6,14 +6,14 @@ From Coq Require Import List Arith ZArith Bool.
 From C05 Require Import Model Proofs.
 Import ListNotations.
 
-(** the values / exceptions observed inside the function and the final result are those of the synchronous
-    reading of the same function (nested inlineCallbacks calls being ordinary calls), in which every awaited
-    Deferred stands for its outcome: its predetermined one,
-    or — if the function was cancelled while waiting on it — whatever its canceller made of it (CancelledError when
-    the canceller does nothing).  In particular they depend neither on the arrival order nor on anything else the
-    cancellation protocol does (status.deferred swapping, re-entrant resumption from inside cancel()). *)
+(** GENERATORS ([coro = false]).  The values / exceptions observed inside the function and the final result are those
+    of the synchronous reading of the same function (nested inlineCallbacks calls being ordinary calls), in which every
+    awaited Deferred stands for its outcome: its predetermined one, or — if the function was cancelled while waiting on
+    it — whatever its canceller made of it (CancelledError when the canceller does nothing); a Deferred that has been
+    yielded once holds None afterwards ([sync] threads the set of consumed Deferreds).  In particular they depend
+    neither on the arrival order nor on anything else the cancellation protocol does. *)
 Theorem inline_matches_sync_partial : forall assign canc pre hold0 g sched r w,
-  run assign canc pre hold0 g sched = (Finished r, w) ->
+  run assign canc false pre hold0 g sched = (Finished r, w) ->
   sync (eff assign canc (cancelled w)) g [] [] = (r, consumed w, own (seen w)).
 Proof.
   intros assign canc pre hold0 g sched r w H.
@@ -21,9 +21,25 @@ Proof.
 Qed.
 Print Assumptions inline_matches_sync_partial.
 
+(** COROUTINES ([coro = true]).  [await d] on a Deferred that has its outcome returns it / raises it EVERY time
+    ([sync_nc] never consumes): a Deferred that had already failed raises at each await, a retry loop keeps seeing the
+    failure, coroutines sharing a cached Deferred all see its outcome.  The theorem holds for every execution in which
+    no await read a Deferred after the driver had taken its result ([stale w = false]); the driver takes it only from a
+    Deferred the coroutine was SUSPENDED on, once the cascade started by its firing is over — re-awaiting such a Deferred
+    after suspending again yields None in the implementation (the Deferred's result is then the return value of the
+    driver's callback), which is the one situation the synchronous reading does not cover. *)
+Theorem coroutine_matches_sync_partial : forall assign canc pre hold0 g sched r w,
+  run assign canc true pre hold0 g sched = (Finished r, w) -> stale w = false ->
+  sync_nc (eff assign canc (cancelled w)) g [] = (r, own (seen w)).
+Proof.
+  intros assign canc pre hold0 g sched r w H Hs.
+  rewrite <- (run_sync_nc assign canc (cancelled w) pre hold0 g sched); rewrite H; [reflexivity | apply agrees_self | exact Hs].
+Qed.
+Print Assumptions coroutine_matches_sync_partial.
+
 (** while suspended, the part already executed is a prefix of that synchronous execution *)
 Theorem suspended_prefix_of_sync : forall assign canc pre hold0 g sched d k w,
-  run assign canc pre hold0 g sched = (Suspended d k, w) ->
+  run assign canc false pre hold0 g sched = (Suspended d k, w) ->
   sync (eff assign canc (cancelled w)) (GYieldD d k) (consumed w) (own (seen w))
   = sync (eff assign canc (cancelled w)) g [] [].
 Proof.
@@ -32,12 +48,12 @@ Proof.
 Qed.
 Print Assumptions suspended_prefix_of_sync.
 
-(** progress: the driver is suspended only on a Deferred that has not fired *)
-Theorem suspended_only_on_unfired : forall assign canc pre hold0 g sched d k w,
-  run assign canc pre hold0 g sched = (Suspended d k, w) -> ~ In d pre /\ ~ In (SFire d) sched.
+(** progress: the driver is suspended only on a Deferred that has not fired (generators and coroutines) *)
+Theorem suspended_only_on_unfired : forall assign canc coro pre hold0 g sched d k w,
+  run assign canc coro pre hold0 g sched = (Suspended d k, w) -> ~ In d pre /\ ~ In (SFire d) sched.
 Proof.
-  intros assign canc pre hold0 g sched d k w H. pose proof (run_WF assign canc pre hold0 g sched) as [_ HW].
-  pose proof (run_fired assign canc pre hold0 g sched d) as Hf. rewrite H in HW, Hf. cbn [fst snd] in *.
+  intros assign canc coro pre hold0 g sched d k w H. pose proof (run_WF assign canc coro pre hold0 g sched) as (_ & _ & HW).
+  pose proof (run_fired assign canc coro pre hold0 g sched d) as Hf. rewrite H in HW, Hf. cbn [fst snd] in *.
   split; intros Hin; apply HW, Hf; [left | right]; exact Hin.
 Qed.
 Print Assumptions suspended_only_on_unfired.
@@ -45,31 +61,30 @@ Print Assumptions suspended_only_on_unfired.
 (** cancelling the returned Deferred while the function waits on D[d] cancels exactly D[d] — its canceller is
     called, nothing else is — and the function is resumed with D[d]'s outcome (unless D[d] was fired while paused:
     then [called] is set and Deferred.cancel() does nothing; the function keeps waiting for the unpause) *)
-Theorem cancel_cancels_exactly_awaited : forall assign canc d k w, mem d (held w) = false ->
-  cancelled (snd (cancel assign canc (Suspended d k, w))) = d :: cancelled w /\
-  cancel assign canc (Suspended d k, w) =
-    drive assign canc (k (if mem d (consumed w) then Val VNone else cancel_outcome (canc d)))
-          (mkw (d :: fired w) (d :: cancelled w) (d :: consumed w) (Cancelled d :: seen w) (held w)).
+Theorem cancel_cancels_exactly_awaited : forall assign canc coro d k w, mem d (held w) = false ->
+  cancelled (snd (cancel assign canc coro (Suspended d k, w))) = d :: cancelled w /\
+  cancel assign canc coro (Suspended d k, w) =
+    resume assign canc coro d k (mkw (d :: fired w) (d :: cancelled w) (consumed w) (Cancelled d :: seen w) (held w) (stale w)).
 Proof. exact cancel_exactly. Qed.
 Print Assumptions cancel_cancels_exactly_awaited.
 
 (** ... and cancelling while the function is RUNNING (code it calls cancels its own Deferred or that of a call further up
     its stack, [GCancelNow]) cancels nothing and delivers nothing: the running function is not waiting on anything.
-    It goes on, and by [inline_matches_sync_partial] — which quantifies over all trees, hence over cancellations at any
-    point of the execution, while suspended ([SCancel] in the schedule) or while running ([GCancelNow] in the tree) —
-    the outcome and everything observed are still those of the synchronous run. *)
-Theorem cancel_while_running_cancels_nothing : forall assign canc lvl g w,
-  drive assign canc (GCancelNow lvl g) w = drive assign canc g (say (CancelNow lvl) w) /\
-  fired (snd (drive assign canc (GCancelNow lvl g) w)) = fired w /\
-  cancelled (snd (drive assign canc (GCancelNow lvl g) w)) = cancelled w.
+    It goes on, and by [inline_matches_sync_partial] / [coroutine_matches_sync_partial] — which quantify over all
+    trees, hence over cancellations at any point of the execution, while suspended ([SCancel] in the schedule) or while
+    running ([GCancelNow] in the tree) — the outcome and everything observed are still those of the synchronous run. *)
+Theorem cancel_while_running_cancels_nothing : forall assign canc coro lvl g w,
+  drive assign canc coro (GCancelNow lvl g) w = drive assign canc coro g (say (CancelNow lvl) w) /\
+  fired (snd (drive assign canc coro (GCancelNow lvl g) w)) = fired w /\
+  cancelled (snd (drive assign canc coro (GCancelNow lvl g) w)) = cancelled w.
 Proof.
-  intros assign canc lvl g w. split; [reflexivity|].
-  destruct (drive_world assign canc (GCancelNow lvl g) w) as (H1 & H2 & _). split; assumption.
+  intros assign canc coro lvl g w. split; [reflexivity|].
+  destruct (drive_world assign canc coro (GCancelNow lvl g) w) as (H1 & H2 & _). split; assumption.
 Qed.
 Print Assumptions cancel_while_running_cancels_nothing.
 
-Theorem each_deferred_cancelled_at_most_once : forall assign canc pre hold0 g sched,
-  NoDup (cancelled (snd (run assign canc pre hold0 g sched))).
+Theorem each_deferred_cancelled_at_most_once : forall assign canc coro pre hold0 g sched,
+  NoDup (cancelled (snd (run assign canc coro pre hold0 g sched))).
 Proof. exact run_cancel_nodup. Qed.
 Print Assumptions each_deferred_cancelled_at_most_once.
 
@@ -77,11 +92,11 @@ Print Assumptions each_deferred_cancelled_at_most_once.
     change the result, what the function observed, or the set of cancelled Deferreds
     (cancel_then_outcome_fires_once = this + inline_matches_sync_partial, whatever the cancelled Deferred's
     canceller does) *)
-Theorem result_fires_once : forall assign canc o r w,
-  fst (step assign canc (Finished r, w) o) = Finished r /\
-  own (seen (snd (step assign canc (Finished r, w) o))) = own (seen w) /\
-  cancelled (snd (step assign canc (Finished r, w) o)) = cancelled w /\
-  consumed (snd (step assign canc (Finished r, w) o)) = consumed w.
+Theorem result_fires_once : forall assign canc coro o r w,
+  fst (step assign canc coro (Finished r, w) o) = Finished r /\
+  own (seen (snd (step assign canc coro (Finished r, w) o))) = own (seen w) /\
+  cancelled (snd (step assign canc coro (Finished r, w) o)) = cancelled w /\
+  consumed (snd (step assign canc coro (Finished r, w) o)) = consumed w.
 Proof. exact step_finished. Qed.
 Print Assumptions result_fires_once.
 
@@ -91,8 +106,17 @@ Example nontrivial_program :
   let s := SSeq (STry (SAwait 0) (SMark 7))
                 (SFinally (STry (SCall (SSeq (SLoop 2 (SAwait 1)) (SReturnValue 9))) (SMark 8)) (SSeq (SAwait 2) (SReturn 5))) in
   let assign := fun d => match d with 0 => Exc (EUser 3) | _ => Val (VInt (Z.of_nat d)) end in
-  let p := run assign (fun _ => CNothing) [2] [0] (gen_of s) [SCancel; SFire 0; SCancel; SFire 1] in
+  let p := run assign (fun _ => CNothing) false [2] [0] (gen_of s) [SCancel; SFire 0; SCancel; SFire 1] in
   fst p = Finished (Val (VInt 5))
   /\ rev (seen (snd p)) = [SawExc (EUser 3); Mark 7; Cancelled 1; SawExc ECancelled; Mark 8; SawVal (VInt 2)]
   /\ cancelled (snd p) = [1].
+Proof. vm_compute. repeat split; reflexivity. Qed.
+
+(** a coroutine with a retry loop over a Deferred that had already failed: it raises at every await *)
+Example coroutine_retry_sees_the_failure_every_time :
+  let s := SLoop 3 (STry (SAwait 0) (SMark 1)) in
+  let p := run (fun _ => Exc (EUser 4)) (fun _ => CNothing) true [0] [] (gen_of s) [] in
+  fst p = Finished (Val VNone)
+  /\ rev (seen (snd p)) = [SawExc (EUser 4); Mark 1; SawExc (EUser 4); Mark 1; SawExc (EUser 4); Mark 1]
+  /\ stale (snd p) = false.
 Proof. vm_compute. repeat split; reflexivity. Qed.
